@@ -11,7 +11,7 @@ for ID in "$@"; do
     git apply "$S/patch.diff" || { echo "SEED $ID/$N patch does not apply"; continue; }
     PYTHONPATH=$W /venv/bin/python "$S/demo.py" >/dev/null 2>&1; DEMO=$?
     cd /verif
-    OUT=$(PYBC_REPO=$W VERIF_UNIT_TIMEOUT=${VERIF_UNIT_TIMEOUT:-400} ./check $ID 2>&1 | grep -E "^VIOLATION|^KNOWN|^INCONCLUSIVE property=$ID undecided|HARNESS-ERROR|exit=" | cut -c1-230)
+    OUT=$(VERIF_EVIDENCE_DIR=${SCRATCH_EVIDENCE:-/tmp/verif-scratch-evidence} PYBC_REPO=$W VERIF_UNIT_TIMEOUT=${VERIF_UNIT_TIMEOUT:-400} ./check $ID 2>&1 | grep -E "^VIOLATION|^KNOWN|^INCONCLUSIVE property=$ID undecided|HARNESS-ERROR|exit=" | cut -c1-230)
     NV=$(echo "$OUT" | grep -c "^VIOLATION")
     EX=$(echo "$OUT" | grep -o "exit=[0-9]" | tail -1)
     cd "$W"; git checkout -q -- .
